@@ -104,7 +104,7 @@ func drawC19(t *rapid.T, dir string, toolQuote map[string][]byte) *c19Case {
 			if !allowUsage {
 				return options[0]
 			}
-		case "mismatch", "toohigh":
+		case "mismatch", "toohigh", "leading-zero-toohigh":
 			if !allowPolicy {
 				return options[0]
 			}
@@ -287,7 +287,7 @@ func drawC19(t *rapid.T, dir string, toolQuote map[string][]byte) *c19Case {
 		if full {
 			cfgState = pick("cfg-"+sv.flag, []string{"absent", "absent", "ok", "toohigh", "wide"})
 		}
-		flagState := pick("flag-"+sv.flag, []string{"absent", "absent", "absent", "ok", "zero", "hex-ok", "toohigh", "wide", "garbage"})
+		flagState := pick("flag-"+sv.flag, []string{"absent", "absent", "absent", "ok", "zero", "hex-ok", "leading-zero-ok", "toohigh", "leading-zero-toohigh", "wide", "garbage"})
 		high := uint32(sv.actual) + 1
 		if sv.actual == 65535 {
 			// cannot exceed: treat "toohigh" as ok
@@ -308,6 +308,13 @@ func drawC19(t *rapid.T, dir string, toolQuote map[string][]byte) *c19Case {
 			c.args = append(c.args, "-"+sv.flag+"=0")
 		case "hex-ok":
 			c.args = append(c.args, fmt.Sprintf("-%s=0x%x", sv.flag, sv.actual))
+		case "leading-zero-ok":
+			// plain decimal digits are a decimal number, leading zeros or not
+			c.args = append(c.args, fmt.Sprintf("-%s=00%d", sv.flag, sv.actual))
+			flagState = "ok"
+		case "leading-zero-toohigh":
+			c.args = append(c.args, fmt.Sprintf("-%s=0%d", sv.flag, high))
+			flagState = "toohigh"
 		case "toohigh":
 			c.args = append(c.args, fmt.Sprintf("-%s=%d", sv.flag, high))
 		case "wide":
